@@ -188,7 +188,7 @@ def run_ctor(case):
         elif how == "empty":
             t = ft.Tensor(rank_ids=ids, shape=shape, default=dflt)
         elif how == "fromUncompressed":
-            nest = _nest(case["t"], d, case["dims"], dflt)
+            nest = case["nest"] if case.get("nest") is not None else _nest(case["t"], d, case["dims"], dflt)
             t = ft.Tensor.fromUncompressed(rank_ids=ids, root=nest, shape=shape, default=dflt)
         elif how == "makePopulated":
             t = ft.Tensor.makePopulated(ids, list(case["dims"]), initial=case.get("initial", 1), default=dflt)
@@ -295,10 +295,16 @@ def run_join(case):
     own = case["own"]          # per level: {"id", "shape", "dflt", "fmt"} (values may be None)
     d = case["d"]
 
+    count = [0] * d          # fibers built so far per level (left to right)
+
     def build(tree, lvl):
         o = own[lvl]
         kw = {}
-        if o.get("shape") is not None:
+        j = count[lvl]
+        count[lvl] += 1
+        if o.get("shapes"):          # sibling / cousin fibers carrying DIFFERENT shapes of their own
+            kw["shape"] = o["shapes"][j % len(o["shapes"])]
+        elif o.get("shape") is not None:
             kw["shape"] = o["shape"]
         if lvl == d - 1:
             f = ft.Fiber([c for c, _ in tree], [v for _, v in tree], default=o.get("dflt") or 0, **kw)
@@ -603,6 +609,20 @@ def _small_scope(tier):
                     for k in range(d):
                         yield _xf(d, t, ids, sh, 0, None, False,
                                   {"name": "split", "kind": "uniform", "step": 2, "k": k, "depthkw": True})
+    # joins of fibers that carry DIFFERENT shapes of their own within one rank, the largest not first
+    jt = {1: [[[1, 5], [6, 2]]],
+          2: [[[0, [[1, 5], [2, 6]]], [2, [[6, 7]]], [3, [[4, 1]]]], [[1, [[0, 1]]], [4, [[7, 2], [8, 3]]]]]}
+    for d in (1, 2):
+        ids = IDS[:d]
+        for t in jt[d]:
+            for shapes in ([3, 9, 5], [9, 3], [7, 9, 8], [10, 9]):
+                own = [{"id": None, "shape": 7 if d == 2 else None, "dflt": None, "fmt": None} for _ in range(d)]
+                own[d - 1] = {"id": None, "shape": None, "shapes": shapes, "dflt": None, "fmt": None}
+                if d == 1:
+                    own[0]["shapes"] = [max(shapes)]
+                for via in ("fromFiber", "setRoot"):
+                    yield {"prop": PROP, "kind": "join", "d": d, "t": t, "ids": ids, "shape": None, "dflt": 0,
+                           "via": via, "own": own}
     # lazy results
     fa = [{"c": [1, 3], "shape": 6, "act": [1, 5], "id": "A"}, {"c": [0, 2, 4], "shape": None, "act": None, "id": None},
           {"c": [2, 3], "shape": 5, "act": None, "id": "A"}, {"c": [], "shape": None, "act": None, "id": "A"},
@@ -624,6 +644,33 @@ def _small_scope(tier):
                 if op["name"] == "populate" and a["c"] and b["c"] and False:
                     continue
                 yield {"prop": PROP, "kind": "lazy", "a": a, "b": b, "op": op}
+    # constructors from nests that are ragged ACROSS parents (sibling lists have equal length, cousin
+    # lists differ): the reported shape is the per-level maximum
+    ragged = [
+        [[[1, 0], [0, 2]], [[0, 3, 0, 4], [5, 0, 0, 6]]],
+        [[[0, 0, 7]], [[1, 2, 3, 4, 5]], [[0, 1]]],
+        [[[1, 2], [3, 4]], [[5], [6]], [[0, 0, 0], [0, 0, 9]]],
+        [[[[1], [2]], [[3], [0]]], [[[0, 4, 5], [6, 0, 0]], [[7, 0, 8], [0, 0, 9]]]],
+        [[[[1, 2]], [[3, 0]]], [[[0, 0, 0, 3]], [[4, 0, 0, 0]]]],
+        [[1, 0, 2], [0, 0, 3]],
+    ]
+
+    def _dims(n):
+        out = []
+        lv = [n]
+        while lv and isinstance(lv[0], list):
+            out.append(max(len(x) for x in lv))
+            nxt = [y for x in lv for y in x]
+            lv = nxt if nxt and isinstance(nxt[0], list) else []
+        return out
+
+    for nest in ragged:
+        dims = _dims(nest)
+        dd = len(dims)
+        for dflt in (0, 7):
+            for shape in (None, [x + 1 for x in dims]):
+                yield {"prop": PROP, "kind": "ctor", "how": "fromUncompressed", "d": dd, "t": [], "nest": nest,
+                       "ids": (IDS + ["H"])[:dd], "shape": shape, "dims": dims, "dflt": dflt}
     # joins
     owns = [{"id": None, "shape": None, "dflt": None, "fmt": None},
             {"id": "Z", "shape": 9, "dflt": 7, "fmt": "U"},
